@@ -67,10 +67,17 @@ func (b *B) switchExhaustiveOn(rule, construct string, fc *FC, v *RF, t types.Ty
 			}
 			c := fc.Val(ifi.Cond)
 			for cn, cv := range consts {
+				other := -1 // successor taken when v is not this constant
 				if c.Equal(b.X.S.Cmp("==", v, cv)) {
+					other = 1
+				} else if c.Equal(b.X.S.Cmp("!=", v, cv)) {
+					other = 0
+				}
+				if other >= 0 {
 					seen[cn] = true
-					// the false edge of the last case leading to a panic = default panics
-					if _, isPanic := ifi.Block().Succs[1].Instrs[len(ifi.Block().Succs[1].Instrs)-1].(*ssa.Panic); isPanic {
+					// the not-this-constant edge of the last case leading to a panic = default panics
+					ob := ifi.Block().Succs[other]
+					if _, isPanic := ob.Instrs[len(ob.Instrs)-1].(*ssa.Panic); isPanic {
 						hasPanicDefault = true
 					}
 				}
